@@ -53,6 +53,303 @@ func (c *Ctx) constEnv(rel string) map[string]string {
 	return env
 }
 
+// ---- a tiny translator of Go integer/boolean guard expressions into Lean (Int / Bool)
+
+type c02tr struct {
+	c    *Ctx
+	vars []string
+	bad  bool
+}
+
+func (t *c02tr) v(name string) string {
+	name = strings.NewReplacer(".", "_", "(", "_", ")", "").Replace(name)
+	if name == "end" {
+		name = "end_"
+	}
+	for _, x := range t.vars {
+		if x == name {
+			return name
+		}
+	}
+	t.vars = append(t.vars, name)
+	return name
+}
+
+func (t *c02tr) intE(e ast.Expr) string {
+	switch v := e.(type) {
+	case *ast.ParenExpr:
+		return "(" + t.intE(v.X) + ")"
+	case *ast.BasicLit:
+		if n, ok := IntLit(v); ok {
+			return fmt.Sprintf("%d", n)
+		}
+	case *ast.Ident:
+		return t.v(v.Name)
+	case *ast.SelectorExpr:
+		return t.v(v.Sel.Name)
+	case *ast.CallExpr:
+		if id, ok := v.Fun.(*ast.Ident); ok && id.Name == "len" && len(v.Args) == 1 {
+			switch a := v.Args[0].(type) {
+			case *ast.Ident:
+				return t.v("len_" + a.Name)
+			case *ast.SelectorExpr:
+				return t.v("len_" + a.Sel.Name)
+			}
+		}
+	case *ast.BinaryExpr:
+		a, b := t.intE(v.X), t.intE(v.Y)
+		switch v.Op {
+		case token.ADD:
+			return "(" + a + " + " + b + ")"
+		case token.SUB:
+			return "(" + a + " - " + b + ")"
+		case token.MUL:
+			return "(" + a + " * " + b + ")"
+		case token.QUO:
+			return "(Int.tdiv " + a + " " + b + ")"
+		case token.REM:
+			return "(Int.tmod " + a + " " + b + ")"
+		}
+	}
+	t.bad = true
+	return "0"
+}
+
+func (t *c02tr) boolE(e ast.Expr) string {
+	switch v := e.(type) {
+	case *ast.ParenExpr:
+		return "(" + t.boolE(v.X) + ")"
+	case *ast.BinaryExpr:
+		switch v.Op {
+		case token.LOR:
+			return "(" + t.boolE(v.X) + " || " + t.boolE(v.Y) + ")"
+		case token.LAND:
+			return "(" + t.boolE(v.X) + " && " + t.boolE(v.Y) + ")"
+		}
+		ops := map[token.Token]string{token.LSS: "<", token.LEQ: "≤", token.GTR: ">", token.GEQ: "≥", token.EQL: "=", token.NEQ: "≠"}
+		if op, ok := ops[v.Op]; ok {
+			return "decide (" + t.intE(v.X) + " " + op + " " + t.intE(v.Y) + ")"
+		}
+	}
+	t.bad = true
+	return "false"
+}
+
+// c02Guard emits `def name (vars : Int) : Bool := …` for a Go condition.
+func c02Guard(c *Ctx, sb *strings.Builder, name string, e ast.Expr) {
+	if e == nil {
+		sb.WriteString(untranslatable(name))
+		return
+	}
+	t := &c02tr{c: c}
+	body := t.boolE(e)
+	if t.bad {
+		sb.WriteString(untranslatable(name))
+		return
+	}
+	args := ""
+	for _, v := range t.vars {
+		args += " (" + v + " : Int)"
+	}
+	fmt.Fprintf(sb, "/-- `%s` -/\ndef %s%s : Bool := %s\n", exprStr(c, e), name, args, body)
+}
+
+func c02Int(c *Ctx, sb *strings.Builder, name string, e ast.Expr) {
+	if e == nil {
+		sb.WriteString(untranslatable(name))
+		return
+	}
+	t := &c02tr{c: c}
+	body := t.intE(e)
+	if t.bad {
+		sb.WriteString(untranslatable(name))
+		return
+	}
+	args := ""
+	for _, v := range t.vars {
+		args += " (" + v + " : Int)"
+	}
+	fmt.Fprintf(sb, "/-- `%s` -/\ndef %s%s : Int := %s\n", exprStr(c, e), name, args, body)
+}
+
+// c02Ifs returns the conditions of all `if` statements of a function in source order.
+func c02Ifs(fd *ast.FuncDecl) []ast.Expr {
+	var out []ast.Expr
+	if fd == nil {
+		return nil
+	}
+	ast.Inspect(fd, func(n ast.Node) bool {
+		if is, ok := n.(*ast.IfStmt); ok {
+			out = append(out, is.Cond)
+		}
+		return true
+	})
+	return out
+}
+
+func c02Nth(l []ast.Expr, i int) ast.Expr {
+	if i < len(l) {
+		return l[i]
+	}
+	return nil
+}
+
+// c02Guards: the guard conditions and small integer fragments of GetMatch, array, WrapIndices, the case
+// labels of GetKey's switch and the case conditions of BuildMatcherFromArguments' switch.
+func c02Guards(c *Ctx, sb *strings.Builder) {
+	ctxFile := "pkg/extractor/sliceSpaceExpressionContext.go"
+	gm := c.Func(ctxFile, "SliceSpaceExpressionContext.GetMatch")
+	ifs := c02Ifs(gm)
+	c02Guard(c, sb, "getMatchGuard0", c02Nth(ifs, 0))
+	c02Guard(c, sb, "getMatchGuard1", c02Nth(ifs, 1))
+	// sliceIndex := idx * 2 ; start := s.indices[sliceIndex] ; end := s.indices[sliceIndex+1]
+	var sliceIndex, startIdx, endIdx ast.Expr
+	if gm != nil {
+		ast.Inspect(gm, func(n ast.Node) bool {
+			if as, ok := n.(*ast.AssignStmt); ok && len(as.Lhs) == 1 && len(as.Rhs) == 1 {
+				if id, ok := as.Lhs[0].(*ast.Ident); ok {
+					switch id.Name {
+					case "sliceIndex":
+						sliceIndex = as.Rhs[0]
+					case "start", "end":
+						if ix, ok := as.Rhs[0].(*ast.IndexExpr); ok {
+							if id.Name == "start" {
+								startIdx = ix.Index
+							} else {
+								endIdx = ix.Index
+							}
+						}
+					}
+				}
+			}
+			return true
+		})
+	}
+	c02Int(c, sb, "getMatchSliceIndex", sliceIndex)
+	c02Int(c, sb, "getMatchStartAt", startIdx)
+	c02Int(c, sb, "getMatchEndAt", endIdx)
+	// array(): for i := 1; i < len(s.indices)/2; i++ { … if i > 1 { separator } … }
+	ar := c.Func(ctxFile, "SliceSpaceExpressionContext.array")
+	var arInit, arCond ast.Expr
+	if ar != nil {
+		ast.Inspect(ar, func(n ast.Node) bool {
+			if fs, ok := n.(*ast.ForStmt); ok {
+				if as, ok := fs.Init.(*ast.AssignStmt); ok && len(as.Rhs) == 1 {
+					arInit = as.Rhs[0]
+				}
+				arCond = fs.Cond
+			}
+			return true
+		})
+	}
+	c02Int(c, sb, "arrayFirst", arInit)
+	c02Guard(c, sb, "arrayLoopCond", arCond)
+	c02Guard(c, sb, "arraySepCond", c02Nth(c02Ifs(ar), 0))
+	// WrapIndices: the early return on odd/empty lists, the per-pair guard, the tail guard, the colour index
+	wi := c.Func("pkg/color/coloring.go", "WrapIndices")
+	wifs := c02Ifs(wi)
+	c02Guard(c, sb, "wrapEarly", c02Nth(wifs, 1))
+	c02Guard(c, sb, "wrapPairGuard", c02Nth(wifs, 2))
+	c02Guard(c, sb, "wrapTailGuard", c02Nth(wifs, 3))
+	var colorIdx ast.Expr
+	if wi != nil {
+		ast.Inspect(wi, func(n ast.Node) bool {
+			if ix, ok := n.(*ast.IndexExpr); ok {
+				if id, ok := ix.X.(*ast.Ident); ok && id.Name == "GroupColors" {
+					colorIdx = ix.Index
+				}
+			}
+			return true
+		})
+	}
+	c02Int(c, sb, "wrapColorIndex", colorIdx)
+	// GetKey: case labels in order with the returned expression
+	gk := c.Func(ctxFile, "SliceSpaceExpressionContext.GetKey")
+	var cases []string
+	okCases := false
+	if gk != nil {
+		ast.Inspect(gk, func(n ast.Node) bool {
+			sw, ok := n.(*ast.SwitchStmt)
+			if !ok {
+				return true
+			}
+			okCases = true
+			for _, st := range sw.Body.List {
+				cc := st.(*ast.CaseClause)
+				var labels []string
+				for _, l := range cc.List {
+					if v, ok := StringLit(l); ok {
+						labels = append(labels, v)
+					} else {
+						okCases = false
+					}
+				}
+				ret := "?"
+				if len(cc.Body) == 1 {
+					if rs, ok := cc.Body[0].(*ast.ReturnStmt); ok && len(rs.Results) == 1 {
+						ret = exprStr(c, rs.Results[0])
+					}
+				}
+				cases = append(cases, fmt.Sprintf("(%s, %s)", leanStrList(labels), leanStr(ret)))
+			}
+			return false
+		})
+	}
+	if okCases {
+		fmt.Fprintf(sb, "/-- the `switch key` of `GetKey`: labels and returned expression, in order -/\ndef getKeyCases : List (List String × String) := [%s]\n", strings.Join(cases, ", "))
+	} else {
+		sb.WriteString(untranslatable("getKeyCases"))
+	}
+	// BuildMatcherFromArguments: the case conditions of its switch, in order
+	bm := c.Func("cmd/helpers/extractorBuilder.go", "BuildMatcherFromArguments")
+	var conds []string
+	okSw := false
+	if bm != nil {
+		ast.Inspect(bm, func(n ast.Node) bool {
+			sw, ok := n.(*ast.SwitchStmt)
+			if !ok {
+				return true
+			}
+			okSw = sw.Tag == nil
+			for _, st := range sw.Body.List {
+				cc := st.(*ast.CaseClause)
+				if cc.List == nil {
+					conds = append(conds, "default")
+				}
+				for _, l := range cc.List {
+					conds = append(conds, exprStr(c, l))
+				}
+			}
+			return false
+		})
+	}
+	if okSw {
+		fmt.Fprintf(sb, "/-- the `switch` of `BuildMatcherFromArguments`: case conditions in order -/\ndef planSwitch : List String := %s\n", leanStrList(conds))
+	} else {
+		sb.WriteString(untranslatable("planSwitch"))
+	}
+	// fastregex.buildRegexp: which compile function each mode uses
+	var calls []string
+	if br := c.Func("pkg/matchers/fastregex/re2.go", "buildRegexp"); br != nil {
+		ast.Inspect(br, func(n ast.Node) bool {
+			switch v := n.(type) {
+			case *ast.IfStmt:
+				calls = append(calls, "if:"+exprStr(c, v.Cond))
+			case *ast.ReturnStmt:
+				if len(v.Results) == 1 {
+					if call, ok := v.Results[0].(*ast.CallExpr); ok {
+						calls = append(calls, "return:"+exprStr(c, call.Fun))
+					}
+				}
+			}
+			return true
+		})
+	}
+	fmt.Fprintf(sb, "/-- `fastregex.buildRegexp` (re2.go): the compile function per mode -/\ndef buildRegexp : List String := %s\n", leanStrList(calls))
+	c.Fingerprint("pkg/matchers/fastregex/re2.go", "buildRegexp")
+	c.Fingerprint("pkg/matchers/fastregex/re2.go", "createGroupNameTable")
+}
+
 func init() {
 	RegisterGen("C02", func(c *Ctx) string {
 		var sb strings.Builder
@@ -175,6 +472,7 @@ func init() {
 		c.Fingerprint("pkg/extractor/sliceSpaceExpressionContext.go", "SliceSpaceExpressionContext.GetMatch")
 		c.Fingerprint("pkg/extractor/sliceSpaceExpressionContext.go", "SliceSpaceExpressionContext.GetKey")
 		c.Fingerprint("pkg/extractor/sliceSpaceExpressionContext.go", "SliceSpaceExpressionContext.array")
+		c02Guards(c, &sb)
 		sb.WriteString("\nend Rare.Gen.C02\n")
 		return sb.String()
 	})
